@@ -284,3 +284,1017 @@ Proof.
     destruct (gap_step b (since, []) x) as [s1 f1]. cbn [snd] in H0. subst f1. apply IH; assumption.
   - rewrite (filter_all_false f l x Hd Ex Hs1). reflexivity.
 Qed.
+
+(* ------------------------------------------------------------------ the marks of a list of outputs, in emission order *)
+Definition emark (o : ka_out) : list mark :=
+  match o with
+  | KoCl (CoSn t dg) => if 0 <? pingreq_kind dg then [MkPing t] else []
+  | KoState t st => [MkChg t st]
+  | _ => []
+  end.
+Definition emarks (os : list ka_out) : list mark := os ≫= emark.
+(* what kmon_step computes *)
+Definition mon_pings (ios : list cl_out) : list mark :=
+  (ios ≫= (fun o => match o with CoSn t dg => [(t, dg)] | _ => [] end)) ≫=
+  (fun td => if 0 <? pingreq_kind (snd td) then [MkPing (fst td)] else []).
+Definition mon_chgs (os : list ka_out) : list mark := map (fun c => MkChg (fst c) (snd c)) (ko_changes os).
+
+Lemma emarks_cons x os : emarks (x :: os) = emark x ++ emarks os.
+Proof. reflexivity. Qed.
+Lemma emarks_app a b : emarks (a ++ b) = emarks a ++ emarks b.
+Proof. unfold emarks. apply bind_app. Qed.
+Lemma emarks_nil : emarks [] = [].
+Proof. reflexivity. Qed.
+
+Lemma mon_pings_emarks os : mon_pings (ko_cl os) = pingsOf (emarks os).
+Proof.
+  induction os as [|x os IH]; [reflexivity|]. rewrite emarks_cons. unfold pingsOf in *. rewrite filter_app, <- IH.
+  destruct x as [c|t st|t id]; try reflexivity.
+  destruct c as [t dg|t id r|t sub tp pl q rt dp mid|t]; try reflexivity.
+  unfold mon_pings, ko_cl. cbn [mbind list_bind app emark snd fst].
+  destruct (0 <? pingreq_kind dg); reflexivity.
+Qed.
+Lemma mon_chgs_emarks os : mon_chgs os = chgsOf (emarks os).
+Proof.
+  induction os as [|x os IH]; [reflexivity|]. rewrite emarks_cons. unfold chgsOf in *. rewrite filter_app, <- IH.
+  destruct x as [c|t st|t id]; try reflexivity.
+  destruct c as [t dg|t id r|t sub tp pl q rt dp mid|t]; try reflexivity.
+  cbn [emark]. destruct (0 <? pingreq_kind dg); reflexivity.
+Qed.
+Lemma mon_lengths os : (length (mon_pings (ko_cl os)) + length (mon_chgs os) <= length (mon_pings (ko_cl os)) + length (ko_changes os))%nat.
+Proof. unfold mon_chgs. rewrite map_length. lia. Qed.
+
+(* ================================================================== Part C: the outputs of a micro-step *)
+(* datagrams are written at the instant T; no call returns "cancelled" (only c_exit does that) *)
+Definition out_ok (T : N) (x : cl_out) : Prop :=
+  match x with CoSn t _ => t = T | CoRet _ _ r => r <> RCancelled | _ => True end.
+Definition OutOK (T : N) (o : list cl_out) : Prop := forall x, In x o -> out_ok T x.
+Lemma OutOK_nil T : OutOK T [].
+Proof. intros x []. Qed.
+Lemma OutOK_app T a b : OutOK T a -> OutOK T b -> OutOK T (a ++ b).
+Proof. intros Ha Hb x H. apply in_app_or in H. destruct H; [apply Ha|apply Hb]; assumption. Qed.
+Lemma OutOK_send s p : OutOK (cl_now s) (fst (c_send s p)).
+Proof. destruct (c_send_spec s p) as [E|(E & _)]; rewrite E; cbn [fst]; [apply OutOK_nil|]. intros x [<-|[]]. reflexivity. Qed.
+Lemma OutOK_ret T s call r : r <> RCancelled -> OutOK T (ret s call r).
+Proof. intros Hr x [<-|[]]. exact Hr. Qed.
+Lemma OutOK_dispatch T s topic p : OutOK T (dispatch s topic p).
+Proof. unfold dispatch. destruct p; try apply OutOK_nil. destruct (handle_set _ _); [apply OutOK_nil|]. intros x [<-|[]]. exact I. Qed.
+
+Lemma OutOK_send' T s p : cl_now s = T -> OutOK T (fst (c_send s p)).
+Proof. intros <-. apply OutOK_send. Qed.
+
+Ltac now_solve :=
+  rewrite ?finish_now;
+  first [reflexivity
+        | cbn; rewrite ?finish_now; reflexivity
+        | repeat match goal with |- context [if ?c then _ else _] => destruct c end; cbn; rewrite ?finish_now; reflexivity].
+
+Ltac out_send T :=
+  match goal with |- context [c_send ?X ?p] =>
+    let Ho := fresh "Ho" in
+    assert (Ho : OutOK T (fst (c_send X p))) by (apply OutOK_send'; now_solve);
+    destruct (c_send X p) as [? [|]]; cbn [fst] in Ho
+  end.
+
+Ltac out_leaf :=
+  cbn [fst snd];
+  repeat first [ assumption | apply OutOK_nil | apply OutOK_app | apply OutOK_dispatch
+               | apply OutOK_ret; discriminate ].
+
+Lemma OutOK_connect cfg s call n : OutOK (cl_now s) (snd (connect_attempt cfg s call n)).
+Proof. unfold connect_attempt, c_new_obj. cbv zeta. out_send (cl_now s); [|out_leaf]. destruct (_ =? 0); [out_leaf|]. out_send (cl_now s); out_leaf. Qed.
+
+Lemma OutOK_complete cfg s g t r ic : r <> RCancelled -> OutOK (cl_now s) (snd (complete cfg s g t r ic)).
+Proof.
+  intros Hr. unfold complete. cbv zeta. rewrite <- (finish_now s g). generalize (c_finish_obj s g). intros s1.
+  destruct (cl_cancelled s1); [apply OutOK_nil|].
+  destruct t as [call att|call kind key st data n0 sub|call st n0 ms|mid pub]; cbn [snd].
+  - destruct r; try (apply OutOK_ret; (exact Hr || discriminate)).
+    destruct (_ <=? _); [apply OutOK_connect|apply OutOK_ret; discriminate].
+  - destruct (kind =? 6); [destruct r; cbn [snd]; apply OutOK_ret; (exact Hr || discriminate)|].
+    destruct (kind =? 7); [destruct r; cbn [snd]; apply OutOK_ret; (exact Hr || discriminate)|]. apply OutOK_ret, Hr.
+  - apply OutOK_ret, Hr.
+  - apply OutOK_nil.
+Qed.
+
+Lemma OutOK_complete' T cfg s g t r ic : cl_now s = T -> r <> RCancelled -> OutOK T (snd (complete cfg s g t r ic)).
+Proof. intros <-. apply OutOK_complete. Qed.
+
+Ltac out_walk T :=
+  repeat first
+    [ progress cbn [fst snd loop_err]
+    | out_send T
+    | match goal with |- OutOK _ (snd (complete ?c ?X ?g ?t ?r ?ic)) =>
+        apply OutOK_complete'; [now_solve|discriminate] end
+    | match goal with |- OutOK _ (snd (match ?x with _ => _ end)) => destruct x end
+    | match goal with |- OutOK _ (snd (if ?x then _ else _)) => destruct x end
+    | match goal with |- OutOK _ (snd (let (_, _) := ?x in _)) => destruct x end ].
+
+Lemma OutOK_fire cfg s k : OutOK (cl_now s) (snd (c_fire cfg s k)).
+Proof. unfold c_fire. destruct k; cbv zeta; out_walk (cl_now s); out_leaf. Qed.
+
+Lemma OutOK_handle cfg s p : OutOK (cl_now s) (snd (handle_packet cfg s p)).
+Proof. unfold handle_packet, c_new_obj. destruct p; cbv zeta; out_walk (cl_now s); out_leaf. Qed.
+
+Lemma OutOK_do_call cfg s id a : OutOK (cl_now s) (snd (do_call cfg s id a)).
+Proof.
+  unfold do_call, call_simple, do_publish, start_retry, c_next_mid, c_new_obj.
+  destruct a; cbv zeta; try apply OutOK_connect; out_walk (cl_now s); out_leaf.
+Qed.
+
+(* ------------------------------------------------------------------ the state and the cancellation under timers *)
+Lemma connect_attempt_st cfg s call n : cl_st (fst (connect_attempt cfg s call n)) = cl_st s.
+Proof. unfold connect_attempt, c_new_obj. cbv zeta. repeat match goal with |- context [c_send ?X ?p] => destruct (c_send X p) as [? [|]] end; try destruct (_ =? 0); reflexivity. Qed.
+Lemma cancel_api_st s : cl_st (c_cancel_from_api s) = cl_st s.
+Proof. unfold c_cancel_from_api. destruct (cl_cancelled s); reflexivity. Qed.
+Lemma cancel_loop_st s e : cl_st (c_cancel_from_loop s e) = cl_st s.
+Proof. unfold c_cancel_from_loop. destruct (cl_cancelled s); reflexivity. Qed.
+Lemma complete_st cfg s g t r ic : cl_st (fst (complete cfg s g t r ic)) = cl_st s.
+Proof.
+  unfold complete. cbv zeta. rewrite <- (finish_st s g). generalize (c_finish_obj s g). intros s1.
+  destruct (cl_cancelled s1); [destruct (cl_exited s1); reflexivity|].
+  destruct t; try (cbn [fst]; reflexivity).
+  - destruct r; try (cbn [fst]; reflexivity). destruct (_ <=? _); [apply connect_attempt_st|reflexivity].
+  - destruct (_ =? 6); [destruct r; cbn [fst]; try reflexivity; apply cancel_api_st|].
+    destruct (_ =? 7); [destruct r; cbn [fst]; try reflexivity; apply (cancel_loop_st s1 true)|]. reflexivity.
+Qed.
+
+Definition st_ok (s s' : cl_state) : Prop := cl_st s' = cl_st s \/ cl_st s' = Awake.
+Lemma c_fire_st cfg s k : st_ok s (fst (c_fire cfg s k)).
+Proof.
+  unfold c_fire, st_ok. destruct k as [g|g|g|g|g]; (destruct (cl_objs s !! g) as [t|]; [|left; reflexivity]); destruct t; try (left; reflexivity);
+    try (left; apply complete_st); cbv zeta.
+  - destruct (_ <? _); [left; apply complete_st|].
+    match goal with |- context [c_send ?X ?p] => destruct (c_send X p) as [? [|]] end; [left; reflexivity|left; rewrite complete_st; reflexivity].
+  - destruct (_ <? _); [left; apply complete_st|].
+    match goal with |- context [c_send ?X ?p] => destruct (c_send X p) as [? [|]] end; [left; reflexivity|left; rewrite complete_st; reflexivity].
+  - match goal with |- context [c_send ?X ?p] => destruct (c_send X p) as [? [|]] end; [right; reflexivity|right; rewrite complete_st; reflexivity].
+Qed.
+
+Lemma complete_cancelled cfg s g t r ic te : cl_cancelled s = Some te -> cl_cancelled (fst (complete cfg s g t r ic)) = Some te.
+Proof.
+  intros H. unfold complete. cbv zeta. rewrite <- (c_finish_obj_cancelled s g) in H. generalize dependent (c_finish_obj s g). intros s1 H.
+  rewrite H. destruct (cl_exited s1); exact H.
+Qed.
+Lemma c_fire_cancelled cfg s k te : cl_cancelled s = Some te -> cl_cancelled (fst (c_fire cfg s k)) = Some te.
+Proof.
+  intros H. unfold c_fire.
+  destruct k as [g|g|g|g|g]; (destruct (cl_objs s !! g) as [t|]; [|exact H]); destruct t; try exact H;
+    try (apply complete_cancelled; exact H); cbv zeta.
+  - destruct (_ <? _); [apply complete_cancelled; exact H|].
+    match goal with |- context [c_send ?X ?p] => destruct (c_send X p) as [? [|]] end; [exact H|apply complete_cancelled; exact H].
+  - destruct (_ <? _); [apply complete_cancelled; exact H|].
+    match goal with |- context [c_send ?X ?p] => destruct (c_send X p) as [? [|]] end; [exact H|apply complete_cancelled; exact H].
+  - match goal with |- context [c_send ?X ?p] => destruct (c_send X p) as [? [|]] end; [exact H|apply complete_cancelled; exact H].
+Qed.
+
+(* ------------------------------------------------------------------ an advance to an instant T at which everything due is due exactly *)
+Definition sn_at (T : N) (o : list cl_out) : Prop := forall t dg, In (CoSn t dg) o -> t = T.
+Definition rcancd (o : list cl_out) : Prop := exists t id, In (CoRet t id RCancelled) o.
+Lemma sn_at_nil T : sn_at T []. Proof. intros t dg []. Qed.
+Lemma sn_at_app T a b : sn_at T a -> sn_at T b -> sn_at T (a ++ b).
+Proof. intros Ha Hb t dg H. apply in_app_or in H. destruct H; [eapply Ha|eapply Hb]; eassumption. Qed.
+Lemma OutOK_sn_at T o : OutOK T o -> sn_at T o.
+Proof. intros H t dg Hi. exact (H _ Hi). Qed.
+Lemma OutOK_no_rc T o : OutOK T o -> ~ rcancd o.
+Proof. intros H (t & id & Hi). exact (H _ Hi eq_refl). Qed.
+Lemma rcancd_app a b : rcancd (a ++ b) -> rcancd a \/ rcancd b.
+Proof. intros (t & id & H). apply in_app_or in H. destruct H; [left|right]; exists t, id; assumption. Qed.
+Lemma sn_at_exit T s te : sn_at T (snd (c_exit s te)).
+Proof.
+  intros t dg H. exfalso. unfold c_exit in H. cbv zeta in H. cbn [snd] in H. destruct H as [H|H]; [discriminate H|].
+  apply elem_of_list_In, elem_of_list_bind in H. destruct H as (c & H & _). destruct (c mod 2 =? 0); apply elem_of_list_In in H; destruct H as [H|[]]; discriminate H.
+Qed.
+
+Definition Inst (s : cl_state) (T : N) : Prop :=
+  cl_now s <= T /\ (forall tm, In tm (cl_timers s) -> T <= ctm_at tm) /\
+  (forall te, cl_cancelled s = Some te -> cl_exited s = false -> T <= te).
+Lemma SI_Inst s : SI s -> Inst s (cl_now s).
+Proof. intros H. split; [lia|]. split; [apply (si_t1 s H)|apply (si_c1 s H)]. Qed.
+
+Lemma run_timers_inst cfg T (Hcfg : wf_cl_cfg cfg) : forall fuel s, SI s -> K (fun _ => True) s -> InvA false s -> Inst s T ->
+  sn_at T (snd (c_run_timers fuel cfg s T)) /\
+  (rcancd (snd (c_run_timers fuel cfg s T)) -> canc (fst (c_run_timers fuel cfg s T))) /\
+  (cl_st (fst (c_run_timers fuel cfg s T)) = Active -> cl_st s = Active) /\
+  (forall te, cl_cancelled s = Some te -> cl_cancelled (fst (c_run_timers fuel cfg s T)) = Some te).
+Proof.
+  induction fuel as [|fuel IH]; intros s Hsi Hk Hia (Hn & Htm & Hte); cbn [c_run_timers].
+  { split; [apply sn_at_nil|]. split; [intros (t & id & [])|]. auto. }
+  cbv zeta.
+  assert (Hnone : sn_at T (@nil cl_out) /\ (rcancd (@nil cl_out) -> canc s) /\ (cl_st s = Active -> cl_st s = Active) /\
+                  (forall te, cl_cancelled s = Some te -> cl_cancelled s = Some te)).
+  { split; [apply sn_at_nil|]. split; [intros (t & id & [])|]. auto. }
+  assert (Hexit : forall te, (if cl_exited s then None else cl_cancelled s) = Some te -> te <= T ->
+            (forall tm, In tm (cl_timers s) -> te <= ctm_at tm) ->
+            SI (fst (c_exit s te)) /\ K (fun _ => True) (fst (c_exit s te)) /\ InvA false (fst (c_exit s te)) /\ Inst (fst (c_exit s te)) T /\
+            canc (fst (c_exit s te))).
+  { intros te Hx Hle Ht. destruct (cl_exited s) eqn:Hex; [discriminate|].
+    pose proof (exit_Good cfg s te Hsi Hx Hex Ht) as G. split; [apply (gd_si _ _ _ _ G)|].
+    split; [apply c_exit_K, Hk|]. split; [apply c_exit_invA, Hia|]. split.
+    - split; [cbn; exact Hle|]. split; [exact Htm|]. intros te' _ He. cbn in He. discriminate He.
+    - unfold canc. cbn. rewrite Hx. discriminate. }
+  destruct (c_min_timer (cl_timers s)) as [tm|] eqn:Emin.
+  - destruct (c_min_timer_spec _ _ Emin) as [Hin Hmin].
+    destruct ((ctm_at tm <=? T) && match (if cl_exited s then None else cl_cancelled s) with Some te => ctm_at tm <? te | None => true end) eqn:Edue.
+    + apply andb_true_iff in Edue. destruct Edue as [Ed Eb]. apply N.leb_le in Ed.
+      assert (Hbe : forall te, cl_cancelled s = Some te -> cl_exited s = false -> ctm_at tm < te).
+      { intros te Hc He. rewrite He, Hc in Eb. apply N.ltb_lt, Eb. }
+      assert (EtT : ctm_at tm = T) by (specialize (Htm tm Hin); lia).
+      pose proof (fire_Good cfg s tm Hcfg Hsi Hk Hia Hin Hmin Hbe) as G1.
+      change (s <| cl_now := ctm_at tm |> <| cl_timers := List.filter (fun u => negb (ctm_seq u =? ctm_seq tm)) (cl_timers s) |>)
+        with (fire_pre s tm).
+      pose proof (c_fire_now cfg (fire_pre s tm) (ctm_kind tm)) as Hn1.
+      pose proof (OutOK_fire cfg (fire_pre s tm) (ctm_kind tm)) as Ho1.
+      pose proof (c_fire_st cfg (fire_pre s tm) (ctm_kind tm)) as Hst1.
+      pose proof (c_fire_cancelled cfg (fire_pre s tm) (ctm_kind tm)) as Hca1.
+      assert (Hk1 : K (fun _ => True) (fst (c_fire cfg (fire_pre s tm) (ctm_kind tm)))).
+      { apply c_fire_K. apply (K_frame _ s); [reflexivity|reflexivity|exact Hk]. }
+      assert (Hia1 : InvA false (fst (c_fire cfg (fire_pre s tm) (ctm_kind tm)))).
+      { apply c_fire_invA. apply (invA_frame false s); [reflexivity|reflexivity|reflexivity|exact Hia]. }
+      change (cl_now (fire_pre s tm)) with (ctm_at tm) in Hn1, Ho1. rewrite EtT in Hn1, Ho1.
+      destruct (c_fire cfg (fire_pre s tm) (ctm_kind tm)) as [s1 o1]. cbn [fst snd] in *.
+      pose proof (gd_si _ _ _ _ G1) as Hsi1. cbn [fst] in Hsi1.
+      assert (Hin1 : Inst s1 T) by (rewrite <- Hn1; apply SI_Inst, Hsi1).
+      destruct (IH s1 Hsi1 Hk1 Hia1 Hin1) as (I1 & I2 & I3 & I4).
+      destruct (c_run_timers fuel cfg s1 T) as [s2 o2]. cbn [fst snd] in *.
+      split; [apply sn_at_app; [apply OutOK_sn_at, Ho1|exact I1]|]. split; [|split].
+      * intros H. apply rcancd_app in H. destruct H as [H|H]; [destruct (OutOK_no_rc _ _ Ho1 H)|apply I2, H].
+      * intros H. specialize (I3 H). unfold st_ok in Hst1. change (cl_st (fire_pre s tm)) with (cl_st s) in Hst1.
+        destruct Hst1 as [E|E]; [congruence|rewrite E in I3; discriminate I3].
+      * intros te Hc. apply I4, Hca1. exact Hc.
+    + destruct (if cl_exited s then None else cl_cancelled s) as [te|] eqn:Ex; [|exact Hnone].
+      destruct (te <=? T) eqn:Ele; [|exact Hnone]. apply N.leb_le in Ele.
+      destruct (Hexit te eq_refl Ele) as (Hsi1 & Hk1 & Hia1 & Hin1 & Hc1).
+      { intros u Hu. specialize (Hmin u Hu). apply andb_false_iff in Edue. destruct Edue as [E|E].
+        - apply N.leb_gt in E. lia.
+        - apply N.ltb_ge in E. lia. }
+      pose proof (sn_at_exit T s te) as Hs1.
+      assert (Hst1 : cl_st (fst (c_exit s te)) = cl_st s) by reflexivity.
+      assert (Hca1 : cl_cancelled (fst (c_exit s te)) = cl_cancelled s) by reflexivity.
+      destruct (c_exit s te) as [s1 o1]. cbn [fst snd] in *.
+      destruct (IH s1 Hsi1 Hk1 Hia1 Hin1) as (I1 & I2 & I3 & I4).
+      pose proof (run_timers_canc cfg T fuel s1 Hc1) as Hc2.
+      destruct (c_run_timers fuel cfg s1 T) as [s2 o2]. cbn [fst snd] in *.
+      split; [apply sn_at_app; assumption|]. split; [intros _; exact Hc2|]. split; [intros H; rewrite <- Hst1; apply I3, H|].
+      intros te' Hc. apply I4. rewrite Hca1. exact Hc.
+  - destruct (if cl_exited s then None else cl_cancelled s) as [te|] eqn:Ex; [|exact Hnone].
+    destruct (te <=? T) eqn:Ele; [|exact Hnone]. apply N.leb_le in Ele.
+    destruct (Hexit te eq_refl Ele) as (Hsi1 & Hk1 & Hia1 & Hin1 & Hc1).
+    { intros u Hu. destruct (cl_timers s); [destruct Hu|]. cbn in Emin. destruct (c_min_timer l); [destruct (c_earlier _ _)|]; discriminate. }
+    split; [apply sn_at_exit|]. split; [intros _; exact Hc1|]. split; [intros H; exact H|]. intros te' Hc. exact Hc.
+Qed.
+
+(* ================================================================== Part B: the loop's transaction object *)
+Definition retb (b : N) (o : list cl_out) : Prop := exists t r, In (CoRet t b r) o.
+Lemma retb_app_l b o1 o2 : retb b o1 -> retb b (o1 ++ o2).
+Proof. intros (t & r & H). exists t, r. apply in_or_app. left. exact H. Qed.
+Lemma retb_app_r b o1 o2 : retb b o2 -> retb b (o1 ++ o2).
+Proof. intros (t & r & H). exists t, r. apply in_or_app. right. exact H. Qed.
+Lemma retb_ret b s r : retb b (ret s b r).
+Proof. exists (cl_now s), r. left. reflexivity. Qed.
+
+Section LoopObj.
+Variables (b g : N).
+Definition LP (n : N) : ctxn := CxRetry b 5 TY_PINGREQ CtNone (Pingreq []) n b.
+(* the object g is the loop's ping; tm is its only timer *)
+Definition LO (n : N) (tm : ctimer) (s : cl_state) : Prop :=
+  cl_objs s !! g = Some (LP n) /\ tmr s g = [tm] /\ ctm_kind tm = CtmRetry g /\ g < cl_next_obj s.
+(* kept, or the call has returned, or the group is cancelled *)
+Definition LK (n : N) (tm : ctimer) (r : CR) : Prop := LO n tm (fst r) \/ retb b (snd r) \/ canc (fst r).
+
+Lemma LO_ext n tm s s' : cl_objs s' = cl_objs s -> cl_timers s' = cl_timers s -> cl_next_obj s' = cl_next_obj s ->
+  LO n tm s -> LO n tm s'.
+Proof. intros E1 E2 E3 (H1 & H2 & H3 & H4). unfold LO. rewrite E1, (tmr_ext s s' g E2), E3. auto. Qed.
+Lemma LO_arm n tm s k d : ctimer_obj k <> g -> LO n tm s -> LO n tm (c_arm s k d).
+Proof. intros Hne (H1 & H2 & H3 & H4). unfold LO. rewrite (tmr_arm_other s k d g Hne). auto. Qed.
+Lemma LO_disarm n tm s g' : g' <> g -> LO n tm s -> LO n tm (c_disarm s g').
+Proof. intros Hne (H1 & H2 & H3 & H4). unfold LO. rewrite (tmr_disarm_other s g' g) by congruence. auto. Qed.
+Lemma LO_set_obj n tm s g' t : g' <> g -> LO n tm s -> LO n tm (c_set_obj s g' t).
+Proof.
+  intros Hne (H1 & H2 & H3 & H4). unfold LO, c_set_obj. cbn. rewrite lookup_insert_ne by congruence.
+  change (tmr (s <| cl_objs := <[g' := t]> (cl_objs s) |>) g) with (tmr s g). auto.
+Qed.
+Lemma LO_new_obj n tm s t : LO n tm s -> LO n tm (fst (c_new_obj s t)) /\ snd (c_new_obj s t) <> g.
+Proof.
+  intros (H1 & H2 & H3 & H4). unfold LO, c_new_obj. cbn [fst snd]. split; [|lia]. cbn.
+  rewrite lookup_insert_ne by lia.
+  change (tmr (s <| cl_objs := <[cl_next_obj s := t]> (cl_objs s) |> <| cl_next_obj := cl_next_obj s + 1 |>) g) with (tmr s g).
+  repeat split; try assumption. lia.
+Qed.
+Lemma LO_finish n tm s g' : g' <> g -> LO n tm s -> LO n tm (c_finish_obj s g').
+Proof.
+  intros Hne (H1 & H2 & H3 & H4). unfold LO. rewrite c_finish_obj_objs, lookup_delete_ne by congruence.
+  rewrite (tmr_finish_other s g' g) by congruence. repeat split; try assumption.
+  destruct (cl_objs s !! g') as [t|] eqn:E; [|rewrite c_finish_obj_none by exact E; exact H4].
+  destruct (finish_facts s g' t E) as (_ & _ & _ & _ & _ & _ & _ & _ & _ & ->). exact H4.
+Qed.
+Lemma LO_obj_ne n tm s g' t : LO n tm s -> cl_objs s !! g' = Some t -> (forall n', t <> LP n') -> g' <> g.
+Proof. intros (H1 & _) Hg Hne ->. rewrite H1 in Hg. injection Hg as <-. eapply Hne. reflexivity. Qed.
+
+Lemma connect_attempt_LO cfg n tm s call att : LO n tm s -> LO n tm (fst (connect_attempt cfg s call att)).
+Proof.
+  intros H. unfold connect_attempt. destruct (LO_new_obj n tm s (CxConnect call att) H) as [H1 Hne].
+  destruct (c_new_obj s (CxConnect call att)) as [s1 g1]. cbn [fst snd] in H1, Hne. cbv zeta.
+  match goal with |- context [c_arm ?X ?k ?d] => assert (H2 : LO n tm (c_arm X k d)) end.
+  { apply LO_arm; [exact Hne|]. eapply LO_ext; [| | |exact H1]; reflexivity. }
+  match goal with |- context [c_arm ?X ?k ?d] => generalize dependent (c_arm X k d) end. intros s2 H2.
+  destruct (c_send s2 (connect_pkt cfg)) as [o1 [|]]; [|exact H2].
+  destruct (len (k_user cfg) =? 0); [exact H2|]. destruct (c_send s2 (auth_pkt cfg)) as [o2 [|]]; exact H2.
+Qed.
+
+Lemma start_retry_LO cfg n tm s call kind key st p bt s' g' o ok :
+  start_retry cfg s call kind key st p bt = (s', g', o, ok) -> LO n tm s -> LO n tm s' /\ g' <> g.
+Proof.
+  intros E H. destruct (start_retry_facts _ _ _ _ _ _ _ _ _ _ _ _ E) as (Eg & Eo & Ec & _). core_inj Ec.
+  destruct H as (H1 & H2 & H3 & H4). assert (Hne : g' <> g) by lia. split; [|exact Hne].
+  unfold LO. rewrite Eo, lookup_insert_ne by exact Hne. rewrite Eno.
+  repeat split; try assumption; [|lia].
+  unfold tmr. rewrite Etm, filter_app. fold (tmr s g). rewrite H2. cbn [List.filter ctm_kind ctimer_obj].
+  assert (E1 : (g' =? g) = false) by (apply N.eqb_neq; exact Hne). rewrite E1. reflexivity.
+Qed.
+
+Lemma canc_set_cc s v : canc s -> canc (s <| cl_conn_closed := v |>).
+Proof. intros H. exact H. Qed.
+
+(* completion of a transaction: of another object, or of the loop's ping itself *)
+Lemma complete_LK cfg n tm s g' t r ic : LO n tm s -> (g' = g -> exists n', t = LP n') ->
+  LK n tm (complete cfg s g' t r ic).
+Proof.
+  intros H Hg. unfold complete, LK. cbv zeta.
+  destruct (N.eq_dec g' g) as [->|Hne].
+  - destruct (Hg eq_refl) as [n' ->]. unfold LP.
+    destruct (cl_cancelled (c_finish_obj s g)) eqn:Ec.
+    + right. right. unfold canc. destruct (cl_exited _); cbn [fst]; [rewrite Ec|cbn; rewrite Ec]; discriminate.
+    + right. left. cbn [N.eqb Pos.eqb snd]. apply retb_ret.
+  - pose proof (LO_finish n tm s g' Hne H) as H1. generalize dependent (c_finish_obj s g'). intros s1 H1.
+    destruct (cl_cancelled s1) eqn:Ec.
+    { right. right. unfold canc. destruct (cl_exited _); cbn [fst]; [rewrite Ec|cbn; rewrite Ec]; discriminate. }
+    destruct t as [call att|call kind key st data n0 sub|call st n0 ms|mid pub]; try (left; exact H1).
+    + destruct r; try (left; exact H1). destruct (_ <=? _); [left; apply connect_attempt_LO, H1|left; exact H1].
+    + destruct (kind =? 6).
+      { destruct r; try (left; exact H1); right; right; cbn [fst]; apply canc_api. }
+      destruct (kind =? 7); [|left; exact H1].
+      destruct r; try (left; exact H1); right; right; cbn [fst]; apply canc_set_cc, canc_loop.
+Qed.
+
+
+Ltac LO_solve :=
+  repeat first
+   [ assumption
+   | apply LO_arm; [cbn [ctimer_obj]; congruence|]
+   | apply LO_disarm; [congruence|]
+   | apply LO_set_obj; [congruence|]
+   | apply LO_finish; [congruence|]
+   | apply connect_attempt_LO
+   | match goal with |- LO _ _ (c_set_state ?X ?st) => apply (LO_ext _ _ X); [reflexivity|reflexivity|reflexivity|] end
+   | match goal with |- LO _ _ (set ?f ?v ?X) => apply (LO_ext _ _ X); [reflexivity|reflexivity|reflexivity|] end
+   | match goal with |- LO _ _ (if ?c then _ else _) => destruct c end ].
+
+(* every object found in the store that is visibly not the loop's ping is another object *)
+Ltac derive_ne :=
+  repeat match goal with
+  | H : LO _ _ ?s, Hl : cl_objs ?s !! ?g' = Some ?t |- _ =>
+    lazymatch goal with
+    | _ : g' <> g |- _ => fail
+    | _ => assert (g' <> g) by (let E := fresh in intros E; rewrite E in Hl; destruct H as (H & _); rewrite H in Hl; discriminate Hl)
+    end
+  end.
+
+Ltac LK_complete :=
+  apply complete_LK; [LO_solve|
+    let E := fresh in intros E; first [congruence |
+      match goal with
+      | H : LO _ _ ?s, Hl : cl_objs ?s !! ?g' = Some _ |- _ =>
+        rewrite E in Hl; destruct H as (H & _); rewrite H in Hl; injection Hl; intros; subst; eexists; reflexivity
+      end]].
+
+Ltac LK_leaf :=
+  first [ LK_complete
+        | left; cbn [fst]; solve [LO_solve]
+        | right; right; unfold loop_err; cbn [fst]; first [apply canc_loop | apply canc_api | apply canc_set_cc, canc_loop] ].
+
+Ltac LK_walk n tm :=
+  repeat first
+    [ progress cbn [fst snd loop_err]
+    | match goal with H : c_get_id _ _ = Some (_, _) |- _ => apply c_get_id_Some in H; destruct H as [? ?] end
+    | match goal with H : c_get_type _ _ = Some (_, _) |- _ => apply c_get_type_Some in H; destruct H as [? ?] end
+    | match goal with |- context [c_new_obj ?X ?t] =>
+        let H1 := fresh "Hno" in let H2 := fresh "Hng" in
+        destruct (LO_new_obj n tm X t ltac:(assumption)) as [H1 H2];
+        destruct (c_new_obj X t) as [? ?]; cbn [fst snd] in H1, H2
+      end
+    | match goal with |- LK _ _ (match ?x with _ => _ end) => destruct x eqn:? end
+    | match goal with |- LK _ _ (if ?x then _ else _) => destruct x eqn:? end
+    | match goal with |- LK _ _ (let (_, _) := ?x in _) => destruct x eqn:? end ].
+
+Lemma c_fire_LK_other cfg n tm s k : LO n tm s -> ctimer_obj k <> g -> LK n tm (c_fire cfg s k).
+Proof.
+  intros H Hne. unfold c_fire. destruct k as [g'|g'|g'|g'|g']; cbn [ctimer_obj] in Hne; cbv zeta; LK_walk n tm; LK_leaf.
+Qed.
+
+Lemma handle_packet_LK cfg n tm s p : LO n tm s -> LK n tm (handle_packet cfg s p).
+Proof.
+  intros H. unfold handle_packet. destruct p; cbv zeta; LK_walk n tm; derive_ne; try LK_leaf.
+Qed.
+
+
+Ltac sr_LK n tm :=
+  match goal with |- context [start_retry ?a ?b0 ?c ?d ?e ?f ?g0 ?h] =>
+    let E := fresh "Esr" in
+    destruct (start_retry a b0 c d e f g0 h) as [[[? ?] ?] ok] eqn:E;
+    eapply (start_retry_LO _ n tm) in E; [destruct E as [? ?]|LO_solve];
+    destruct ok
+  end.
+
+Lemma call_simple_LK cfg n tm s call kind st mk : LO n tm s -> LK n tm (call_simple cfg s call kind st mk).
+Proof. intros H. unfold call_simple, c_next_mid. sr_LK n tm; LK_leaf. Qed.
+
+Lemma do_publish_LK cfg n tm s call tit tid qos retain payload : LO n tm s ->
+  LK n tm (do_publish cfg s call tit tid qos retain payload).
+Proof.
+  intros H. unfold do_publish, c_next_mid. cbv zeta.
+  destruct ((qos =? 0) || (qos =? 3)); [LK_walk n tm; LK_leaf|].
+  destruct (qos =? 1); [sr_LK n tm; LK_leaf|].
+  destruct (qos =? 2); [sr_LK n tm; LK_leaf|]. LK_leaf.
+Qed.
+
+Lemma do_call_LK cfg n tm s id a : LO n tm s -> LK n tm (do_call cfg s id a).
+Proof.
+  intros H. unfold do_call.
+  destruct a as [|topic|topic qos|tid qos|topic qos retain payload|tid qos retain payload|topic|tid| |ms| |].
+  - left. apply connect_attempt_LO, H.
+  - destruct (len topic =? 0); [LK_leaf|]. apply call_simple_LK, H.
+  - destruct (len topic =? 0); [LK_leaf|]. destruct (is_short_topic topic); apply call_simple_LK, H.
+  - apply call_simple_LK, H.
+  - destruct (is_short_topic topic); [apply do_publish_LK, H|].
+    destruct (reg_lookup (cl_registered s) topic); [apply do_publish_LK, H|LK_leaf].
+  - apply do_publish_LK, H.
+  - destruct (len topic =? 0); [LK_leaf|]. destruct (is_short_topic topic); apply call_simple_LK, H.
+  - apply call_simple_LK, H.
+  - sr_LK n tm; LK_leaf.
+  - destruct (negb _); [LK_leaf|]. LK_walk n tm; LK_leaf.
+  - destruct (cl_st s); try LK_leaf; (sr_LK n tm; LK_leaf).
+  - destruct (cl_st s); try LK_leaf; (sr_LK n tm; LK_leaf).
+Qed.
+
+
+Lemma complete_own cfg s n' r ic :
+  retb b (snd (complete cfg s g (LP n') r ic)) \/ canc (fst (complete cfg s g (LP n') r ic)).
+Proof.
+  unfold complete, LP. cbv zeta. destruct (cl_cancelled (c_finish_obj s g)) eqn:Ec.
+  - right. unfold canc. destruct (cl_exited _); cbn [fst]; [rewrite Ec|cbn; rewrite Ec]; discriminate.
+  - left. cbn [N.eqb Pos.eqb snd]. apply retb_ret.
+Qed.
+
+(* the loop's own retry timer fires (it has been taken out of the timer list) *)
+Lemma c_fire_own cfg n s : cl_objs s !! g = Some (LP n) -> tmr s g = [] -> g < cl_next_obj s ->
+  (LO (n + 1) {| ctm_at := cl_now s + k_rdelay cfg; ctm_seq := cl_next_seq s; ctm_kind := CtmRetry g |} (fst (c_fire cfg s (CtmRetry g))) /\
+   snd (c_fire cfg s (CtmRetry g)) = [CoSn (cl_now s) (pack (Pingreq []))]) \/
+  retb b (snd (c_fire cfg s (CtmRetry g))) \/ canc (fst (c_fire cfg s (CtmRetry g))).
+Proof.
+  intros Hg Ht Hlt. cbn [c_fire]. rewrite Hg. change (LP n) with (CxRetry b 5 TY_PINGREQ CtNone (Pingreq []) n b). cbv beta iota.
+  destruct (k_rcount cfg <? n + 1); [right; apply (complete_own cfg s n)|].
+  cbn [N.eqb Pos.eqb orb]. cbv zeta.
+  set (s1 := c_set_obj s g (CxRetry b 5 TY_PINGREQ CtNone (Pingreq []) (n + 1) b)).
+  destruct (c_send_spec s1 (Pingreq [])) as [E|(E & _ & _)]; rewrite E.
+  - right. apply (complete_own cfg s1 (n + 1)).
+  - left. cbn [fst snd]. split; [|reflexivity]. unfold LO. split; [|split; [|split]].
+    + cbn. apply lookup_insert.
+    + rewrite (tmr_arm_same s1 (CtmRetry g) (k_rdelay cfg) g eq_refl).
+      change (tmr s1 g) with (tmr s g). rewrite Ht. reflexivity.
+    + reflexivity.
+    + exact Hlt.
+Qed.
+
+Lemma c_exit_canc s te : canc s -> canc (fst (c_exit s te)).
+Proof. intros H. exact H. Qed.
+
+Definition ping_at (T : N) (o : list cl_out) : Prop := In (CoSn T (pack (Pingreq []))) o.
+
+Lemma run_timers_LO cfg T (Hcfg : wf_cl_cfg cfg) : forall fuel s, SI s -> K (fun _ => True) s -> InvA false s -> Inst s T ->
+  forall n tm, LO n tm s ->
+  (exists n' tm', LO n' tm' (fst (c_run_timers fuel cfg s T)) /\
+      (tm' = tm \/ (ping_at T (snd (c_run_timers fuel cfg s T)) /\ ctm_at tm' = T + k_rdelay cfg))) \/
+  retb b (snd (c_run_timers fuel cfg s T)) \/ canc (fst (c_run_timers fuel cfg s T)).
+Proof.
+  induction fuel as [|fuel IH]; intros s Hsi Hk Hia (Hn & Htm & Hte) n tm HLO; cbn [c_run_timers].
+  { left. exists n, tm. split; [exact HLO|left; reflexivity]. }
+  cbv zeta.
+  assert (Hnone : (exists n' tm', LO n' tm' s /\ (tm' = tm \/ (ping_at T (@nil cl_out) /\ ctm_at tm' = T + k_rdelay cfg))) \/
+                  retb b (@nil cl_out) \/ canc s).
+  { left. exists n, tm. split; [exact HLO|left; reflexivity]. }
+  assert (Hcx : forall te, (if cl_exited s then None else cl_cancelled s) = Some te -> canc s).
+  { intros te H. unfold canc. destruct (cl_exited s); [discriminate|]. rewrite H. discriminate. }
+  destruct (c_min_timer (cl_timers s)) as [tm0|] eqn:Emin.
+  - destruct (c_min_timer_spec _ _ Emin) as [Hin Hmin].
+    destruct ((ctm_at tm0 <=? T) && match (if cl_exited s then None else cl_cancelled s) with Some te => ctm_at tm0 <? te | None => true end) eqn:Edue.
+    + apply andb_true_iff in Edue. destruct Edue as [Ed Eb]. apply N.leb_le in Ed.
+      assert (Hbe : forall te, cl_cancelled s = Some te -> cl_exited s = false -> ctm_at tm0 < te).
+      { intros te Hc He. rewrite He, Hc in Eb. apply N.ltb_lt, Eb. }
+      assert (EtT : ctm_at tm0 = T) by (specialize (Htm tm0 Hin); lia).
+      pose proof (fire_Good cfg s tm0 Hcfg Hsi Hk Hia Hin Hmin Hbe) as G1.
+      change (s <| cl_now := ctm_at tm0 |> <| cl_timers := List.filter (fun u => negb (ctm_seq u =? ctm_seq tm0)) (cl_timers s) |>)
+        with (fire_pre s tm0).
+      pose proof (c_fire_now cfg (fire_pre s tm0) (ctm_kind tm0)) as Hn1.
+      assert (Hk1 : K (fun _ => True) (fst (c_fire cfg (fire_pre s tm0) (ctm_kind tm0)))).
+      { apply c_fire_K. apply (K_frame _ s); [reflexivity|reflexivity|exact Hk]. }
+      assert (Hia1 : InvA false (fst (c_fire cfg (fire_pre s tm0) (ctm_kind tm0)))).
+      { apply c_fire_invA. apply (invA_frame false s); [reflexivity|reflexivity|reflexivity|exact Hia]. }
+      change (cl_now (fire_pre s tm0)) with (ctm_at tm0) in Hn1. rewrite EtT in Hn1.
+      destruct HLO as (L1 & L2 & L3 & L4).
+      (* what the fired timer does to the loop's object *)
+      assert (Hstep : (exists n1 tm1, LO n1 tm1 (fst (c_fire cfg (fire_pre s tm0) (ctm_kind tm0))) /\
+                          (tm1 = tm \/ (ping_at T (snd (c_fire cfg (fire_pre s tm0) (ctm_kind tm0))) /\ ctm_at tm1 = T + k_rdelay cfg))) \/
+                      retb b (snd (c_fire cfg (fire_pre s tm0) (ctm_kind tm0))) \/
+                      canc (fst (c_fire cfg (fire_pre s tm0) (ctm_kind tm0)))).
+      { destruct (N.eq_dec (ctimer_obj (ctm_kind tm0)) g) as [Eg|Eg].
+        - assert (E0 : tm0 = tm).
+          { assert (H0 : In tm0 (tmr s g)) by (apply tmr_in; auto). rewrite L2 in H0. destruct H0 as [H0|[]]. auto. }
+          subst tm0. rewrite L3.
+          destruct (c_fire_own cfg n (fire_pre s tm) L1 (pre_tmr_same s tm g L2) L4) as [[F1 F2]|[F|F]].
+          + left. eexists _, _. split; [exact F1|]. right. rewrite F2. cbn [ctm_at]. change (cl_now (fire_pre s tm)) with (ctm_at tm). rewrite EtT.
+            split; [left; reflexivity|reflexivity].
+          + right. left. exact F.
+          + right. right. exact F.
+        - assert (HLO0 : LO n tm (fire_pre s tm0)).
+          { unfold LO. rewrite (pre_tmr_other s tm0 Hsi Hin g) by congruence. auto. }
+          destruct (c_fire_LK_other cfg n tm _ _ HLO0 Eg) as [F|[F|F]].
+          + left. exists n, tm. split; [exact F|left; reflexivity].
+          + right. left. exact F.
+          + right. right. exact F. }
+      destruct (c_fire cfg (fire_pre s tm0) (ctm_kind tm0)) as [s1 o1]. cbn [fst snd] in *.
+      pose proof (gd_si _ _ _ _ G1) as Hsi1. cbn [fst] in Hsi1.
+      assert (Hin1 : Inst s1 T) by (rewrite <- Hn1; apply SI_Inst, Hsi1).
+      pose proof (IH s1 Hsi1 Hk1 Hia1 Hin1) as IH1.
+      pose proof (run_timers_canc cfg T fuel s1) as Hc2.
+      destruct (c_run_timers fuel cfg s1 T) as [s2 o2]. cbn [fst snd] in *.
+      destruct Hstep as [(n1 & tm1 & F1 & F2)|[F|F]].
+      * destruct (IH1 n1 tm1 F1) as [(n2 & tm2 & G2 & G3)|[G|G]].
+        -- left. exists n2, tm2. split; [exact G2|].
+           destruct G3 as [->|[G3 G4]].
+           ++ destruct F2 as [->|[F2 F3]]; [left; reflexivity|right]. split; [apply in_or_app; left; exact F2|exact F3].
+           ++ right. split; [apply in_or_app; right; exact G3|exact G4].
+        -- right. left. apply retb_app_r, G.
+        -- right. right. exact G.
+      * right. left. apply retb_app_l, F.
+      * right. right. apply Hc2, F.
+    + destruct (if cl_exited s then None else cl_cancelled s) as [te|] eqn:Ex; [|exact Hnone].
+      destruct (te <=? T); [|exact Hnone]. right. right.
+      assert (Hc1 : canc (fst (c_exit s te))) by (exact (Hcx te eq_refl)). destruct (c_exit s te) as [s1 o1]. cbn [fst] in Hc1.
+      pose proof (run_timers_canc cfg T fuel s1 Hc1) as Hc2. destruct (c_run_timers fuel cfg s1 T) as [s2 o2]. exact Hc2.
+  - destruct (if cl_exited s then None else cl_cancelled s) as [te|] eqn:Ex; [|exact Hnone].
+    destruct (te <=? T); [|exact Hnone]. right. right. exact (Hcx te eq_refl).
+Qed.
+
+Lemma cl_step_user_LK cfg n tm s ev : (forall d, ev <> CAdv d) -> LO n tm s -> LK n tm (cl_step cfg s ev).
+Proof.
+  intros Hev H. unfold cl_step. destruct ev as [id a|dg|d]; [| |destruct (Hev d eq_refl)].
+  - destruct (cl_exited s); [left; exact H|]. destruct (cl_cancelled s); [left; exact H|].
+    pose proof (do_call_LK cfg n tm s id a H) as H1. destruct (do_call cfg s id a) as [s1 o1].
+    destruct (cl_cancelled s1) as [te|] eqn:Ec; [|exact H1]. destruct (te <=? cl_now s1); [|exact H1].
+    right. right. assert (Hc : canc (fst (c_exit s1 te))) by (unfold canc; cbn; rewrite Ec; discriminate).
+    destruct (c_exit s1 te) as [s2 o2]. exact Hc.
+  - destruct (cl_exited s); [left; exact H|]. destruct (cl_cancelled s); [left; exact H|]. cbv zeta.
+    assert (H0 : LO n tm (s <| cl_last_read := cl_now s |>)) by (eapply LO_ext; [| | |exact H]; reflexivity).
+    destruct (read_dgram dg) as [p|e|ps].
+    + pose proof (handle_packet_LK cfg n tm _ p H0) as H1. destruct (handle_packet cfg (s <| cl_last_read := cl_now s |>) p) as [s1 o1].
+      destruct (cl_cancelled s1) as [te|] eqn:Ec; [|exact H1]. destruct (te <=? cl_now s1); [|exact H1].
+      right. right. assert (Hc : canc (fst (c_exit s1 te))) by (unfold canc; cbn; rewrite Ec; discriminate).
+      destruct (c_exit s1 te) as [s2 o2]. exact Hc.
+    + right. right. match goal with |- context [c_exit ?X ?t] => assert (Hc : canc (fst (c_exit X t))) by (apply c_exit_canc, canc_loop); destruct (c_exit X t) end. exact Hc.
+    + right. right. match goal with |- context [c_exit ?X ?t] => assert (Hc : canc (fst (c_exit X t))) by (apply c_exit_canc, canc_loop); destruct (c_exit X t) end. exact Hc.
+Qed.
+
+Lemma cl_step_adv_LO cfg (Hcfg : wf_cl_cfg cfg) s d : SI s -> K (fun _ => True) s -> InvA false s -> Inst s (cl_now s + d) ->
+  forall n tm, LO n tm s ->
+  (exists n' tm', LO n' tm' (fst (cl_step cfg s (CAdv d))) /\
+      (tm' = tm \/ (ping_at (cl_now s + d) (snd (cl_step cfg s (CAdv d))) /\ ctm_at tm' = cl_now s + d + k_rdelay cfg))) \/
+  retb b (snd (cl_step cfg s (CAdv d))) \/ canc (fst (cl_step cfg s (CAdv d))).
+Proof.
+  intros Hsi Hk Hia Hin n tm H. unfold cl_step.
+  pose proof (run_timers_LO cfg (cl_now s + d) Hcfg (c_advance_fuel cfg s d) s Hsi Hk Hia Hin n tm H) as R.
+  destruct (c_run_timers _ _ _ _) as [s1 o1]. cbn [fst snd] in *.
+  destruct R as [(n' & tm' & R1 & R2)|[R|R]]; [left|right; left; exact R|right; right; exact R].
+  exists n', tm'. split; [|exact R2]. eapply LO_ext; [| | |exact R1]; reflexivity.
+Qed.
+End LoopObj.
+
+(* the loop's ping starts: a new transaction object with its retry timer, one PINGREQ *)
+Lemma pack_pingreq0 : len (pack (Pingreq [])) <= MaxPacketLen.
+Proof. vm_compute. discriminate. Qed.
+
+Lemma ping_start cfg s id : SI s -> cl_cancelled s = None ->
+  snd (cl_step cfg s (CCall id APing)) = [CoSn (cl_now s) (pack (Pingreq []))] /\
+  LO id (cl_next_obj s) 0 {| ctm_at := cl_now s + k_rdelay cfg; ctm_seq := cl_next_seq s; ctm_kind := CtmRetry (cl_next_obj s) |}
+     (fst (cl_step cfg s (CCall id APing))) /\
+  cl_cancelled (fst (cl_step cfg s (CCall id APing))) = None.
+Proof.
+  intros Hsi Hca. destruct (si_c2 s Hsi Hca) as (_ & Hex & Hcc).
+  unfold cl_step. rewrite Hex, Hca. cbn [do_call].
+  destruct (start_retry cfg s id 5 TY_PINGREQ CtNone (Pingreq []) true) as [[[s1 g1] o1] ok] eqn:E.
+  destruct (start_retry_facts _ _ _ _ _ _ _ _ _ _ _ _ E) as (Eg & Eo & Ec & _ & Hok).
+  rewrite (Hok Hcc pack_pingreq0). core_inj Ec.
+  assert (Eo1 : o1 = [CoSn (cl_now s) (pack (Pingreq []))]).
+  { revert E. unfold start_retry, c_new_obj. cbv zeta.
+    match goal with |- context [c_send ?X ?p] => rewrite (c_send_ok X p Hcc pack_pingreq0) end. intros E. injection E as _ _ <- _. reflexivity. }
+  rewrite Eca, Hca. cbn [fst snd]. split; [exact Eo1|]. split; [|congruence].
+  unfold LO, LP. subst g1. rewrite Eo, lookup_insert. split; [reflexivity|]. split; [|split; [reflexivity|lia]].
+  unfold tmr. rewrite Etm, filter_app. fold (tmr s (cl_next_obj s)). rewrite (tmr_nil_fresh s _ Hsi) by lia.
+  cbn [List.filter ctm_kind ctimer_obj app]. rewrite N.eqb_refl. reflexivity.
+Qed.
+
+(* ------------------------------------------------------------------ the whole step: outputs *)
+Lemma cl_step_user_out cfg s ev : (forall d, ev <> CAdv d) ->
+  sn_at (cl_now s) (snd (cl_step cfg s ev)) /\ (rcancd (snd (cl_step cfg s ev)) -> canc (fst (cl_step cfg s ev))) /\
+  (canc (fst (cl_step cfg s ev)) \/ cl_now (fst (cl_step cfg s ev)) = cl_now s).
+Proof.
+  intros Hev.
+  assert (Hidle : sn_at (cl_now s) (@nil cl_out) /\ (rcancd (@nil cl_out) -> canc s) /\ (canc s \/ cl_now s = cl_now s)).
+  { split; [apply sn_at_nil|]. split; [intros (t & id & [])|right; reflexivity]. }
+  assert (Hgen : forall s1 o1, OutOK (cl_now s) o1 -> cl_now s1 = cl_now s ->
+    let r := match cl_cancelled s1 with
+             | Some te => if te <=? cl_now s1 then match c_exit s1 te with (s'', o') => (s'', o1 ++ o') end else (s1, o1)
+             | None => (s1, o1) end in
+    sn_at (cl_now s) (snd r) /\ (rcancd (snd r) -> canc (fst r)) /\ (canc (fst r) \/ cl_now (fst r) = cl_now s)).
+  { intros s1 o1 Ho En. destruct (cl_cancelled s1) as [te|] eqn:Ec; cbv zeta.
+    - destruct (te <=? cl_now s1).
+      + pose proof (sn_at_exit (cl_now s) s1 te) as Hx.
+        assert (Hc : canc (fst (c_exit s1 te))) by (unfold canc; cbn; rewrite Ec; discriminate).
+        destruct (c_exit s1 te) as [s2 o2]. cbn [fst snd] in *.
+        split; [apply sn_at_app; [apply OutOK_sn_at, Ho|exact Hx]|]. split; [intros _; exact Hc|left; exact Hc].
+      + cbn [fst snd]. split; [apply OutOK_sn_at, Ho|]. split; [intros H; destruct (OutOK_no_rc _ _ Ho H)|right; exact En].
+    - cbn [fst snd]. split; [apply OutOK_sn_at, Ho|]. split; [intros H; destruct (OutOK_no_rc _ _ Ho H)|right; exact En]. }
+  unfold cl_step. destruct ev as [id a|dg|d]; [| |destruct (Hev d eq_refl)].
+  - destruct (cl_exited s); [exact Hidle|]. destruct (cl_cancelled s); [exact Hidle|].
+    pose proof (OutOK_do_call cfg s id a) as Ho. pose proof (do_call_now cfg s id a) as En.
+    destruct (do_call cfg s id a) as [s1 o1]. cbn [fst snd] in Ho, En. exact (Hgen s1 o1 Ho En).
+  - destruct (cl_exited s); [exact Hidle|]. destruct (cl_cancelled s); [exact Hidle|]. cbv zeta.
+    destruct (read_dgram dg) as [p|e|ps].
+    + pose proof (OutOK_handle cfg (s <| cl_last_read := cl_now s |>) p) as Ho.
+      pose proof (handle_packet_now cfg (s <| cl_last_read := cl_now s |>) p) as En.
+      destruct (handle_packet cfg (s <| cl_last_read := cl_now s |>) p) as [s1 o1]. cbn [fst snd] in Ho, En. exact (Hgen s1 o1 Ho En).
+    + match goal with |- context [c_exit ?X ?t] =>
+        pose proof (sn_at_exit (cl_now s) X t) as Hx; assert (Hc : canc (fst (c_exit X t))) by (apply c_exit_canc, canc_loop); destruct (c_exit X t) end.
+      cbn [fst snd] in *. split; [exact Hx|]. split; [intros _; exact Hc|left; exact Hc].
+    + match goal with |- context [c_exit ?X ?t] =>
+        pose proof (sn_at_exit (cl_now s) X t) as Hx; assert (Hc : canc (fst (c_exit X t))) by (apply c_exit_canc, canc_loop); destruct (c_exit X t) end.
+      cbn [fst snd] in *. split; [exact Hx|]. split; [intros _; exact Hc|left; exact Hc].
+Qed.
+
+Lemma cl_step_adv_inst cfg (Hcfg : wf_cl_cfg cfg) s d : SI s -> K (fun _ => True) s -> InvA false s -> Inst s (cl_now s + d) ->
+  sn_at (cl_now s + d) (snd (cl_step cfg s (CAdv d))) /\
+  (rcancd (snd (cl_step cfg s (CAdv d))) -> canc (fst (cl_step cfg s (CAdv d)))) /\
+  (cl_st (fst (cl_step cfg s (CAdv d))) = Active -> cl_st s = Active) /\
+  (forall te, cl_cancelled s = Some te -> cl_cancelled (fst (cl_step cfg s (CAdv d))) = Some te).
+Proof.
+  intros Hsi Hk Hia Hin. unfold cl_step.
+  pose proof (run_timers_inst cfg (cl_now s + d) Hcfg (c_advance_fuel cfg s d) s Hsi Hk Hia Hin) as R.
+  destruct (c_run_timers _ _ _ _) as [s1 o1]. cbn [fst snd] in *. exact R.
+Qed.
+
+(* ================================================================== Part D: a bound on the call identifiers of the live transactions *)
+Section CallBound.
+Variable B : N.
+Definition CB (s : cl_state) : Prop := forall g t c, cl_objs s !! g = Some t -> call_of t = Some c -> c < B.
+Definition cb_t (t : ctxn) : Prop := forall c, call_of t = Some c -> c < B.
+
+Lemma CB_ext s s' : cl_objs s' = cl_objs s -> CB s -> CB s'.
+Proof. intros E H g t c. rewrite E. apply H. Qed.
+Lemma CB_new_obj s t : CB s -> cb_t t -> CB (fst (c_new_obj s t)).
+Proof.
+  intros H Ht g t' c. unfold c_new_obj. cbn. destruct (N.eq_dec g (cl_next_obj s)) as [->|Hne].
+  - rewrite lookup_insert. intros E. injection E as <-. apply Ht.
+  - rewrite lookup_insert_ne by congruence. apply H.
+Qed.
+Lemma CB_set_obj s g t : CB s -> cb_t t -> CB (c_set_obj s g t).
+Proof.
+  intros H Ht g' t' c. unfold c_set_obj. cbn. destruct (N.eq_dec g' g) as [->|Hne].
+  - rewrite lookup_insert. intros E. injection E as <-. apply Ht.
+  - rewrite lookup_insert_ne by congruence. apply H.
+Qed.
+Lemma CB_finish s g : CB s -> CB (c_finish_obj s g).
+Proof. intros H g' t c. rewrite c_finish_obj_objs. intros E. apply lookup_delete_Some' in E. destruct E as [E _]. eapply H, E. Qed.
+Lemma CB_cancel_api s : CB s -> CB (c_cancel_from_api s).
+Proof. unfold c_cancel_from_api. destruct (cl_cancelled s); [auto|apply CB_ext; reflexivity]. Qed.
+Lemma CB_cancel_loop s e : CB s -> CB (c_cancel_from_loop s e).
+Proof. unfold c_cancel_from_loop. destruct (cl_cancelled s); [auto|apply CB_ext; reflexivity]. Qed.
+Lemma CB_obj s g t : CB s -> cl_objs s !! g = Some t -> cb_t t.
+Proof. intros H Hg c Hc. eapply H; eassumption. Qed.
+
+Lemma CB_connect cfg s call n : CB s -> call < B -> CB (fst (connect_attempt cfg s call n)).
+Proof.
+  intros H Hc. unfold connect_attempt.
+  assert (H1 : CB (fst (c_new_obj s (CxConnect call n)))) by (apply CB_new_obj; [exact H|intros c E; injection E as <-; exact Hc]).
+  destruct (c_new_obj s (CxConnect call n)) as [s1 g1]. cbn [fst] in H1. cbv zeta.
+  repeat match goal with |- context [c_send ?X ?p] => destruct (c_send X p) as [? [|]] end; try destruct (_ =? 0); cbn [fst];
+    (eapply CB_ext; [|exact H1]; reflexivity).
+Qed.
+
+Lemma CB_start_retry cfg s call kind key st p bt s' g o ok :
+  start_retry cfg s call kind key st p bt = (s', g, o, ok) -> CB s -> call < B -> CB s'.
+Proof.
+  intros E H Hc. destruct (start_retry_facts _ _ _ _ _ _ _ _ _ _ _ _ E) as (_ & Eo & _).
+  intros g' t c. rewrite Eo. destruct (N.eq_dec g' g) as [->|Hne].
+  - rewrite lookup_insert. intros E1. injection E1 as <-. cbn. intros E1. injection E1 as <-. exact Hc.
+  - rewrite lookup_insert_ne by congruence. apply H.
+Qed.
+
+Lemma CB_complete cfg s g t r ic : CB s -> cb_t t -> CB (fst (complete cfg s g t r ic)).
+Proof.
+  intros H Ht. unfold complete. cbv zeta. pose proof (CB_finish s g H) as H1. generalize dependent (c_finish_obj s g). intros s1 H1.
+  destruct (cl_cancelled s1); [destruct (cl_exited s1); cbn [fst]; [exact H1|eapply CB_ext; [|exact H1]; reflexivity]|].
+  destruct t as [call att|call kind key st data n0 sub|call st n0 ms|mid pub]; try (cbn [fst]; exact H1).
+  - destruct r; try (cbn [fst]; exact H1). destruct (_ <=? _); [|exact H1]. apply CB_connect; [exact H1|apply Ht; reflexivity].
+  - destruct (_ =? 6); [destruct r; cbn [fst]; try exact H1; apply CB_cancel_api, H1|].
+    destruct (_ =? 7); [|exact H1]. destruct r; cbn [fst]; try exact H1; (eapply CB_ext; [|apply (CB_cancel_loop s1 true), H1]; reflexivity).
+Qed.
+
+Ltac CB_solve :=
+  repeat first
+   [ assumption
+   | apply CB_finish | apply CB_cancel_api | apply CB_cancel_loop
+   | apply CB_complete; [|first [eapply CB_obj; eassumption | intros ? E; injection E as <-; eapply CB_obj; [|eassumption|reflexivity]; eassumption]]
+   | apply CB_set_obj; [|first [intros ? E; discriminate E | intros ? E; injection E as <-; assumption | intros ? E; injection E as <-; eapply CB_obj; [|eassumption|reflexivity]; eassumption]]
+   | match goal with |- CB (c_arm ?X ?k ?d) => apply (CB_ext X); [reflexivity|] end
+   | match goal with |- CB (c_disarm ?X ?g) => apply (CB_ext X); [reflexivity|] end
+   | match goal with |- CB (c_set_state ?X ?st) => apply (CB_ext X); [reflexivity|] end
+   | match goal with |- CB (set ?f ?v ?X) => apply (CB_ext X); [reflexivity|] end
+   | match goal with |- CB (if ?c then _ else _) => destruct c end ].
+
+Ltac CB_walk1 :=
+  first
+    [ progress cbn [fst snd loop_err]
+    | match goal with H : c_get_id _ _ = Some (_, _) |- _ => apply c_get_id_Some in H; destruct H as [? ?] end
+    | match goal with H : c_get_type _ _ = Some (_, _) |- _ => apply c_get_type_Some in H; destruct H as [? ?] end
+    | match goal with |- context [c_new_obj ?X ?t] =>
+        let H1 := fresh "Hno" in
+        assert (H1 : CB (fst (c_new_obj X t))) by (apply CB_new_obj; [CB_solve|first [intros ? E; discriminate E | intros ? E; injection E as <-; assumption]]);
+        destruct (c_new_obj X t) as [? ?]; cbn [fst] in H1
+      end
+    | match goal with |- CB (fst (match ?x with _ => _ end)) => destruct x eqn:? end
+    | match goal with |- CB (fst (if ?x then _ else _)) => destruct x eqn:? end
+    | match goal with |- CB (fst (let (_, _) := ?x in _)) => destruct x eqn:? end ].
+Ltac CB_walk := repeat CB_walk1.
+
+Lemma CB_fire cfg s k : CB s -> CB (fst (c_fire cfg s k)).
+Proof. intros H. unfold c_fire. destruct k; cbv zeta; CB_walk; CB_solve. Qed.
+
+Lemma CB_handle cfg s p : CB s -> CB (fst (handle_packet cfg s p)).
+Proof. intros H. unfold handle_packet. destruct p; cbv zeta; CB_walk; CB_solve. Qed.
+
+Ltac sr_CB :=
+  match goal with |- context [start_retry ?a ?b0 ?c ?d ?e ?f ?g0 ?h] =>
+    let E := fresh "Esr" in
+    destruct (start_retry a b0 c d e f g0 h) as [[[? ?] ?] ok] eqn:E;
+    eapply CB_start_retry in E; [|CB_solve|assumption];
+    destruct ok
+  end.
+
+Lemma CB_do_call cfg s id a : CB s -> id < B -> CB (fst (do_call cfg s id a)).
+Proof.
+  intros H Hid. unfold do_call, call_simple, do_publish, c_next_mid.
+  destruct a; cbv zeta; try (apply CB_connect; assumption);
+    repeat first [sr_CB | CB_walk1]; CB_solve.
+Qed.
+
+Lemma CB_exit s te : CB s -> CB (fst (c_exit s te)).
+Proof. apply CB_ext. reflexivity. Qed.
+
+Lemma CB_run_timers cfg t : forall fuel s, CB s -> CB (fst (c_run_timers fuel cfg s t)).
+Proof.
+  induction fuel as [|fuel IH]; intros s H; cbn [c_run_timers]; [exact H|]. cbv zeta.
+  destruct (c_min_timer (cl_timers s)) as [tm|].
+  - match goal with |- context [if ?c then _ else _] => destruct c end.
+    + match goal with |- context [c_fire cfg ?X ?k] =>
+        assert (H1 : CB (fst (c_fire cfg X k))) by (apply CB_fire; eapply CB_ext; [|exact H]; reflexivity);
+        destruct (c_fire cfg X k) as [s1 o1] end.
+      cbn [fst] in H1. specialize (IH s1 H1). destruct (c_run_timers fuel cfg s1 t) as [s2 o2]. exact IH.
+    + destruct (if cl_exited s then None else cl_cancelled s) as [te|]; [|exact H]. destruct (te <=? t); [|exact H].
+      pose proof (CB_exit s te H) as H1. destruct (c_exit s te) as [s1 o1]. cbn [fst] in H1.
+      specialize (IH s1 H1). destruct (c_run_timers fuel cfg s1 t) as [s2 o2]. exact IH.
+  - destruct (if cl_exited s then None else cl_cancelled s) as [te|]; [|exact H]. destruct (te <=? t); [apply CB_exit, H|exact H].
+Qed.
+
+Lemma CB_step cfg s ev : CB s -> (forall id a, ev = CCall id a -> id < B) -> CB (fst (cl_step cfg s ev)).
+Proof.
+  intros H Hid. unfold cl_step. destruct ev as [id a|dg|d].
+  - destruct (cl_exited s); [exact H|]. destruct (cl_cancelled s); [exact H|].
+    pose proof (CB_do_call cfg s id a H (Hid id a eq_refl)) as H1. destruct (do_call cfg s id a) as [s1 o1]. cbn [fst] in H1.
+    destruct (cl_cancelled s1) as [te|]; [|exact H1]. destruct (te <=? cl_now s1); [|exact H1].
+    pose proof (CB_exit s1 te H1) as H2. destruct (c_exit s1 te) as [s2 o2]. exact H2.
+  - destruct (cl_exited s); [exact H|]. destruct (cl_cancelled s); [exact H|]. cbv zeta.
+    assert (H0 : CB (s <| cl_last_read := cl_now s |>)) by (eapply CB_ext; [|exact H]; reflexivity).
+    destruct (read_dgram dg) as [p|e|ps].
+    + pose proof (CB_handle cfg _ p H0) as H1. destruct (handle_packet cfg (s <| cl_last_read := cl_now s |>) p) as [s1 o1]. cbn [fst] in H1.
+      destruct (cl_cancelled s1) as [te|]; [|exact H1]. destruct (te <=? cl_now s1); [|exact H1].
+      pose proof (CB_exit s1 te H1) as H2. destruct (c_exit s1 te) as [s2 o2]. exact H2.
+    + match goal with |- context [c_exit ?X ?t] => pose proof (CB_exit X t ltac:(apply CB_cancel_loop, H0)) as H2; destruct (c_exit X t) end. exact H2.
+    + match goal with |- context [c_exit ?X ?t] => pose proof (CB_exit X t ltac:(apply CB_cancel_loop, H0)) as H2; destruct (c_exit X t) end. exact H2.
+  - pose proof (CB_run_timers cfg (cl_now s + d) (c_advance_fuel cfg s d) s H) as H1.
+    destruct (c_run_timers _ _ _ _) as [s1 o1]. cbn [fst] in *. eapply CB_ext; [|exact H1]. reflexivity.
+Qed.
+
+Lemma CB_mono s B' : CB s -> B <= B' -> forall g t c, cl_objs s !! g = Some t -> call_of t = Some c -> c < B'.
+Proof. intros H Hle g t c Hg Hc. pose proof (H g t c Hg Hc). lia. Qed.
+End CallBound.
+
+(* ================================================================== Part E: when the group is cancelled, the exit is at most readTimeout away *)
+Definition CT (s s' : cl_state) : Prop :=
+  cl_now s' = cl_now s /\ cl_last_read s' = cl_last_read s /\
+  (forall te, cl_cancelled s' = Some te -> cl_cancelled s = Some te \/
+     (cl_last_read s <= cl_now s -> cl_now s <= te /\ te <= cl_now s + readTimeout)).
+Lemma CT_refl s : CT s s.
+Proof. split; [reflexivity|]. split; [reflexivity|]. intros te H. left. exact H. Qed.
+Lemma CT_ext s x x' : cl_now x' = cl_now x -> cl_last_read x' = cl_last_read x -> cl_cancelled x' = cl_cancelled x -> CT s x -> CT s x'.
+Proof. intros E1 E2 E3 (H1 & H2 & H3). split; [congruence|]. split; [congruence|]. rewrite E3. exact H3. Qed.
+Lemma CT_finish s x g : CT s x -> CT s (c_finish_obj x g).
+Proof.
+  destruct (cl_objs x !! g) as [t|] eqn:E; [|rewrite c_finish_obj_none by exact E; auto].
+  destruct (finish_facts x g t E) as (_ & _ & _ & F1 & F2 & F3 & _). apply CT_ext; assumption.
+Qed.
+Lemma CT_cancel_api s x : CT s x -> CT s (c_cancel_from_api x).
+Proof.
+  intros (H1 & H2 & H3). unfold c_cancel_from_api. destruct (cl_cancelled x) eqn:Ec; [split; [exact H1|split; [exact H2|rewrite Ec; exact H3]]|].
+  split; [exact H1|]. split; [exact H2|]. cbn. intros te E. injection E as <-. right. intros Hle. rewrite H1, H2.
+  pose proof (next_poll_bounds _ _ Hle). lia.
+Qed.
+Lemma CT_cancel_loop s x e : CT s x -> CT s (c_cancel_from_loop x e).
+Proof.
+  intros (H1 & H2 & H3). unfold c_cancel_from_loop. destruct (cl_cancelled x) eqn:Ec; [split; [exact H1|split; [exact H2|rewrite Ec; exact H3]]|].
+  split; [exact H1|]. split; [exact H2|]. cbn. intros te E. injection E as <-. right. intros _. rewrite H1. unfold readTimeout. lia.
+Qed.
+Lemma CT_connect cfg s x call n : CT s x -> CT s (fst (connect_attempt cfg x call n)).
+Proof.
+  intros H. unfold connect_attempt, c_new_obj. cbv zeta.
+  repeat match goal with |- context [c_send ?X ?p] => destruct (c_send X p) as [? [|]] end; try destruct (_ =? 0); cbn [fst];
+    (eapply CT_ext; [| | |exact H]; reflexivity).
+Qed.
+Lemma CT_complete cfg s x g t r ic : CT s x -> CT s (fst (complete cfg x g t r ic)).
+Proof.
+  intros H. unfold complete. cbv zeta. pose proof (CT_finish s x g H) as H1. generalize dependent (c_finish_obj x g). intros s1 H1.
+  destruct (cl_cancelled s1); [destruct (cl_exited s1); cbn [fst]; [exact H1|eapply CT_ext; [| | |exact H1]; reflexivity]|].
+  destruct t as [call att|call kind key st data n0 sub|call st n0 ms|mid pub]; try (cbn [fst]; exact H1).
+  - destruct r; try (cbn [fst]; exact H1). destruct (_ <=? _); [apply CT_connect, H1|exact H1].
+  - destruct (_ =? 6); [destruct r; cbn [fst]; try exact H1; apply CT_cancel_api, H1|].
+    destruct (_ =? 7); [|exact H1]. destruct r; cbn [fst]; try exact H1; (eapply CT_ext; [| | |apply (CT_cancel_loop s s1 true), H1]; reflexivity).
+Qed.
+
+Ltac CT_solve :=
+  repeat first
+   [ assumption | apply CT_refl
+   | apply CT_finish | apply CT_cancel_api | apply CT_cancel_loop | apply CT_complete | apply CT_connect
+   | match goal with |- CT _ (c_arm ?X ?k ?d) => apply (CT_ext _ X); [reflexivity|reflexivity|reflexivity|] end
+   | match goal with |- CT _ (c_disarm ?X ?g) => apply (CT_ext _ X); [reflexivity|reflexivity|reflexivity|] end
+   | match goal with |- CT _ (c_set_obj ?X ?g ?t) => apply (CT_ext _ X); [reflexivity|reflexivity|reflexivity|] end
+   | match goal with |- CT _ (c_set_state ?X ?st) => apply (CT_ext _ X); [reflexivity|reflexivity|reflexivity|] end
+   | match goal with |- CT _ (set ?f ?v ?X) => apply (CT_ext _ X); [reflexivity|reflexivity|reflexivity|] end
+   | match goal with |- CT _ (if ?c then _ else _) => destruct c end ].
+
+Ltac CT_walk1 :=
+  first
+    [ progress cbn [fst snd loop_err]
+    | match goal with |- context [c_send ?X ?p] => destruct (c_send X p) as [? [|]] end
+    | match goal with |- CT _ (fst (match ?x with _ => _ end)) => destruct x end
+    | match goal with |- CT _ (fst (if ?x then _ else _)) => destruct x end
+    | match goal with |- CT _ (fst (let (_, _) := ?x in _)) => destruct x end ].
+Ltac CT_walk := repeat CT_walk1.
+
+Lemma CT_fire cfg s k : CT s (fst (c_fire cfg s k)).
+Proof. unfold c_fire. destruct k; cbv zeta; CT_walk; CT_solve. Qed.
+Lemma CT_handle cfg s p : CT s (fst (handle_packet cfg s p)).
+Proof. unfold handle_packet, c_new_obj. destruct p; cbv zeta; CT_walk; CT_solve. Qed.
+Lemma CT_start_retry cfg s x call kind key st p bt s' g o ok :
+  start_retry cfg x call kind key st p bt = (s', g, o, ok) -> CT s x -> CT s s'.
+Proof.
+  intros E H. destruct (start_retry_facts _ _ _ _ _ _ _ _ _ _ _ _ E) as (_ & _ & Ec & _). core_inj Ec.
+  eapply CT_ext; [| | |exact H]; assumption.
+Qed.
+Ltac sr_CT :=
+  match goal with |- context [start_retry ?a ?b0 ?c ?d ?e ?f ?g0 ?h] =>
+    let E := fresh "Esr" in
+    destruct (start_retry a b0 c d e f g0 h) as [[[? ?] ?] ok] eqn:E;
+    eapply CT_start_retry in E; [|CT_solve];
+    destruct ok
+  end.
+Lemma CT_do_call cfg s id a : CT s (fst (do_call cfg s id a)).
+Proof.
+  unfold do_call, call_simple, do_publish, c_next_mid, c_new_obj.
+  destruct a; cbv zeta; try (apply CT_connect, CT_refl); repeat first [sr_CT | CT_walk1]; CT_solve.
+Qed.
+
+Lemma run_timers_CT cfg T (Hcfg : wf_cl_cfg cfg) : forall fuel s, SI s -> K (fun _ => True) s -> InvA false s -> cl_now s <= T ->
+  forall te, cl_cancelled (fst (c_run_timers fuel cfg s T)) = Some te ->
+  cl_cancelled s = Some te \/ (cl_now s <= te /\ te <= T + readTimeout).
+Proof.
+  induction fuel as [|fuel IH]; intros s Hsi Hk Hia Hn te; cbn [c_run_timers]; [intros H; left; exact H|]. cbv zeta.
+  destruct (c_min_timer (cl_timers s)) as [tm|] eqn:Emin.
+  - destruct (c_min_timer_spec _ _ Emin) as [Hin Hmin].
+    destruct ((ctm_at tm <=? T) && match (if cl_exited s then None else cl_cancelled s) with Some te => ctm_at tm <? te | None => true end) eqn:Edue.
+    + apply andb_true_iff in Edue. destruct Edue as [Ed Eb]. apply N.leb_le in Ed.
+      assert (Hbe : forall te, cl_cancelled s = Some te -> cl_exited s = false -> ctm_at tm < te).
+      { intros te0 Hc He. rewrite He, Hc in Eb. apply N.ltb_lt, Eb. }
+      pose proof (fire_Good cfg s tm Hcfg Hsi Hk Hia Hin Hmin Hbe) as G1.
+      change (s <| cl_now := ctm_at tm |> <| cl_timers := List.filter (fun u => negb (ctm_seq u =? ctm_seq tm)) (cl_timers s) |>)
+        with (fire_pre s tm).
+      pose proof (c_fire_now cfg (fire_pre s tm) (ctm_kind tm)) as Hn1.
+      pose proof (CT_fire cfg (fire_pre s tm) (ctm_kind tm)) as (_ & _ & Hct).
+      assert (Hk1 : K (fun _ => True) (fst (c_fire cfg (fire_pre s tm) (ctm_kind tm)))).
+      { apply c_fire_K. apply (K_frame _ s); [reflexivity|reflexivity|exact Hk]. }
+      assert (Hia1 : InvA false (fst (c_fire cfg (fire_pre s tm) (ctm_kind tm)))).
+      { apply c_fire_invA. apply (invA_frame false s); [reflexivity|reflexivity|reflexivity|exact Hia]. }
+      change (cl_now (fire_pre s tm)) with (ctm_at tm) in Hn1, Hct. change (cl_last_read (fire_pre s tm)) with (cl_last_read s) in Hct.
+      change (cl_cancelled (fire_pre s tm)) with (cl_cancelled s) in Hct.
+      destruct (c_fire cfg (fire_pre s tm) (ctm_kind tm)) as [s1 o1]. cbn [fst snd] in *.
+      pose proof (gd_si _ _ _ _ G1) as Hsi1. cbn [fst] in Hsi1.
+      pose proof (IH s1 Hsi1 Hk1 Hia1 ltac:(lia) te) as IH1.
+      destruct (c_run_timers fuel cfg s1 T) as [s2 o2]. cbn [fst] in *. intros H.
+      pose proof (si_lr s Hsi) as Hlr0. pose proof (si_t1 s Hsi tm Hin) as Ht0.
+      destruct (IH1 H) as [J1|J1]; [|right; lia].
+      destruct (Hct te J1) as [J2|J2]; [left; exact J2|right].
+      specialize (J2 ltac:(lia)). lia.
+    + destruct (if cl_exited s then None else cl_cancelled s) as [te0|] eqn:Ex; [|intros H; left; exact H].
+      destruct (te0 <=? T) eqn:Ele; [|intros H; left; exact H]. apply N.leb_le in Ele.
+      assert (Hx : cl_exited s = false /\ cl_cancelled s = Some te0) by (destruct (cl_exited s); [discriminate|auto]). destruct Hx as [Hex Hca].
+      assert (Hge : forall u, In u (cl_timers s) -> te0 <= ctm_at u).
+      { intros u Hu. specialize (Hmin u Hu). apply andb_false_iff in Edue. destruct Edue as [E|E].
+        - apply N.leb_gt in E. lia.
+        - apply N.ltb_ge in E. lia. }
+      pose proof (exit_Good cfg s te0 Hsi Hca Hex Hge) as G.
+      pose proof (c_exit_K (fun _ => True) s te0 Hk) as [Hk1 _]. pose proof (c_exit_invA false s te0 Hia) as Hia1.
+      assert (Hca1 : cl_cancelled (fst (c_exit s te0)) = cl_cancelled s) by reflexivity.
+      assert (Hn1 : cl_now (fst (c_exit s te0)) = te0) by reflexivity.
+      pose proof (gd_si _ _ _ _ G) as Hsi1.
+      destruct (c_exit s te0) as [s1 o1]. cbn [fst] in *.
+      pose proof (IH s1 Hsi1 Hk1 Hia1 ltac:(lia) te) as IH1.
+      destruct (c_run_timers fuel cfg s1 T) as [s2 o2]. cbn [fst] in *. intros H.
+      pose proof (si_c1 s Hsi te0 Hca Hex) as Hc0.
+      destruct (IH1 H) as [J1|J1]; [left; congruence|right; lia].
+  - destruct (if cl_exited s then None else cl_cancelled s) as [te0|] eqn:Ex; [|intros H; left; exact H].
+    destruct (te0 <=? T); intros H; left; exact H.
+Qed.
+
+Lemma cl_step_CT cfg (Hcfg : wf_cl_cfg cfg) s ev : SI s -> K (fun _ => True) s -> InvA false s ->
+  forall te, cl_cancelled (fst (cl_step cfg s ev)) = Some te ->
+  cl_cancelled s = Some te \/
+  (cl_now s <= te /\ te <= match ev with CAdv d => cl_now s + d | _ => cl_now s end + readTimeout).
+Proof.
+  intros Hsi Hk Hia te. pose proof (si_lr s Hsi) as Hlr. unfold cl_step. destruct ev as [id a|dg|d].
+  - destruct (cl_exited s); [intros H; left; exact H|]. destruct (cl_cancelled s) eqn:Eca; [intros H; left; cbn [fst] in H; congruence|].
+    pose proof (CT_do_call cfg s id a) as (_ & _ & Hct). destruct (do_call cfg s id a) as [s1 o1]. cbn [fst] in Hct.
+    assert (H1 : cl_cancelled s1 = Some te -> cl_now s <= te /\ te <= cl_now s + readTimeout).
+    { intros H. destruct (Hct te H) as [H2|H2]; [congruence|apply H2, Hlr]. }
+    destruct (cl_cancelled s1) as [te1|] eqn:Ec; [|intros H; cbn [fst] in H; congruence].
+    destruct (te1 <=? cl_now s1).
+    + assert (Hc : cl_cancelled (fst (c_exit s1 te1)) = cl_cancelled s1) by reflexivity. destruct (c_exit s1 te1) as [s2 o2]. cbn [fst] in *.
+      intros H. right. apply H1. congruence.
+    + cbn [fst]. intros H. right. apply H1. congruence.
+  - destruct (cl_exited s); [intros H; left; exact H|]. destruct (cl_cancelled s) eqn:Eca; [intros H; left; cbn [fst] in H; congruence|]. cbv zeta.
+    destruct (read_dgram dg) as [p|e|ps].
+    + pose proof (CT_handle cfg (s <| cl_last_read := cl_now s |>) p) as (_ & _ & Hct).
+      change (cl_cancelled (s <| cl_last_read := cl_now s |>)) with (cl_cancelled s) in Hct.
+      change (cl_now (s <| cl_last_read := cl_now s |>)) with (cl_now s) in Hct.
+      change (cl_last_read (s <| cl_last_read := cl_now s |>)) with (cl_now s) in Hct.
+      destruct (handle_packet cfg (s <| cl_last_read := cl_now s |>) p) as [s1 o1]. cbn [fst] in Hct.
+      assert (H1 : cl_cancelled s1 = Some te -> cl_now s <= te /\ te <= cl_now s + readTimeout).
+      { intros H. destruct (Hct te H) as [H2|H2]; [congruence|apply H2; lia]. }
+      destruct (cl_cancelled s1) as [te1|] eqn:Ec; [|intros H; cbn [fst] in H; congruence].
+      destruct (te1 <=? cl_now s1).
+      * assert (Hc : cl_cancelled (fst (c_exit s1 te1)) = cl_cancelled s1) by reflexivity. destruct (c_exit s1 te1) as [s2 o2]. cbn [fst] in *.
+        intros H. right. apply H1. congruence.
+      * cbn [fst]. intros H. right. apply H1. congruence.
+    + unfold c_exit, c_cancel_from_loop. cbn. rewrite Eca. cbn. intros H. injection H as <-. right. unfold readTimeout. lia.
+    + unfold c_exit, c_cancel_from_loop. cbn. rewrite Eca. cbn. intros H. injection H as <-. right. unfold readTimeout. lia.
+  - pose proof (run_timers_CT cfg (cl_now s + d) Hcfg (c_advance_fuel cfg s d) s Hsi Hk Hia ltac:(lia) te) as R.
+    destruct (c_run_timers _ _ _ _) as [s1 o1]. cbn [fst] in *. exact R.
+Qed.
+
+(* calls and datagrams do not move the clock *)
+Lemma user_step_now_eq cfg s ev : cl_last_read s <= cl_now s -> (forall d, ev <> CAdv d) -> cl_now (fst (cl_step cfg s ev)) = cl_now s.
+Proof.
+  intros Hlr Hev. unfold cl_step. destruct ev as [id a|dg|d]; [| |destruct (Hev d eq_refl)].
+  - destruct (cl_exited s); [reflexivity|]. destruct (cl_cancelled s) eqn:Eca; [reflexivity|].
+    pose proof (CT_do_call cfg s id a) as (Hn & _ & Hct). destruct (do_call cfg s id a) as [s1 o1]. cbn [fst] in *.
+    destruct (cl_cancelled s1) as [te1|] eqn:Ec; [|exact Hn]. destruct (te1 <=? cl_now s1) eqn:Ele; [|exact Hn].
+    apply N.leb_le in Ele. destruct (Hct te1 eq_refl) as [H|H]; [congruence|]. specialize (H Hlr). cbn. lia.
+  - destruct (cl_exited s); [reflexivity|]. destruct (cl_cancelled s) eqn:Eca; [reflexivity|]. cbv zeta.
+    destruct (read_dgram dg) as [p|e|ps]; [|reflexivity|reflexivity].
+    pose proof (CT_handle cfg (s <| cl_last_read := cl_now s |>) p) as (Hn & _ & Hct).
+    change (cl_cancelled (s <| cl_last_read := cl_now s |>)) with (cl_cancelled s) in Hct.
+    change (cl_now (s <| cl_last_read := cl_now s |>)) with (cl_now s) in Hct, Hn.
+    change (cl_last_read (s <| cl_last_read := cl_now s |>)) with (cl_now s) in Hct.
+    destruct (handle_packet cfg (s <| cl_last_read := cl_now s |>) p) as [s1 o1]. cbn [fst] in *.
+    destruct (cl_cancelled s1) as [te1|] eqn:Ec; [|exact Hn]. destruct (te1 <=? cl_now s1) eqn:Ele; [|exact Hn].
+    apply N.leb_le in Ele. destruct (Hct te1 eq_refl) as [H|H]; [congruence|]. specialize (H ltac:(lia)). cbn. lia.
+Qed.
+
+Print Assumptions merge_fold_all.
+Print Assumptions merge_fold_filter.
+Print Assumptions nofail_filter.
+Print Assumptions cl_step_user_LK.
+Print Assumptions cl_step_adv_LO.
+Print Assumptions ping_start.
+Print Assumptions cl_step_user_out.
+Print Assumptions cl_step_adv_inst.
+Print Assumptions CB_step.
+Print Assumptions cl_step_CT.
+Print Assumptions user_step_now_eq.
